@@ -23,7 +23,6 @@ import sys
 def main():
     h = json.loads(pathlib.Path(sys.argv[1]).read_text())
     ns = h["ns"]
-    import nunavut
     import pydsdl
     from nunavut import build_namespace_tree, generate_types
     from nunavut._generators import create_default_generators
